@@ -10,6 +10,9 @@
 From ClapModel Require Import Base.Bytes Base.Machine.
 From ClapModel Require Import Parse.Cmd Parse.Build Parse.Valid Parse.Matcher Parse.Errors Parse.Parser ParseProofs.Actions ParseProofs.ActionsLoop ParseProofs.ActionsTokens ParseProofs.ActionsTop ParseProofs.ActionsWide ParseProofs.ActionsWideTop ParseProofs.ActionsGraph ParseProofs.ActionsRequired ParseProofs.ActionsChain.
 From ClapModel Require ParseProofs.Chain ParseProofs.Globals ParseProofs.UnparseTree.
+From ClapModel Require Gen.ActionTables ParseProofs.TablesActions Gen.SettingsTables ParseProofs.TablesSettings.
+From ClapModel Require Gen.BuildTables ParseProofs.TablesBuild Derive.DeriveModel Complete.AotTree.
+From ClapModel Require Gen.GateSites ParseProofs.TablesGate ParseProofs.TablesSettingsTree ParseProofs.Totality.
 From Coq Require Import ZArith.
 Open Scope N_scope.
 
@@ -776,3 +779,188 @@ Theorem C07_chain_levels_top : forall c0 bin toks lv m,
   Globals.chain m = map (fun p => c_name (fst p)) (tl lv).
 Proof. exact chain_levels_top. Qed.
 Print Assumptions C07_chain_levels_top.
+
+(** ---- round 5: the model's builder data are the tables found in the source on this run ----
+    [Gen.ActionTables] is regenerated from clap_builder/src/builder/{action,range,arg}.rs by translators/builder_tables.py
+    before every build; vocabulary in ParseProofs/TablesActions.v: [row_ok act row] = the row says about [act] what
+    [action_default_num_args], [r_takes_values], [action_default_value], [action_default_missing_value], [action_default_vp]
+    say; [range_named] / [src_range_pred] read the constants / predicates of [ValueRange]; [tbl_arg_build] interprets
+    the table as [Arg::_build]. *)
+Theorem C07_action_table :
+  Forall2 TablesActions.row_ok TablesActions.action_variants ActionTables.gen_action_rows
+  /\ (forall act, In act TablesActions.action_variants)
+  /\ (forall act, exists row, TablesActions.row_of act = Some row /\ TablesActions.row_ok act row).
+Proof. exact (conj TablesActions.model_action_table (conj TablesActions.action_variants_complete TablesActions.model_action_row)). Qed.
+Print Assumptions C07_action_table.
+
+(** [Arg::_build] of the model IS the function the regenerated table defines, for every argument *)
+Theorem C07_arg_build_table : forall a, TablesActions.tbl_arg_build a = Some (arg_build a).
+Proof. exact TablesActions.arg_build_table. Qed.
+Print Assumptions C07_arg_build_table.
+
+(** after the build, "takes a value" of an argument without explicit [num_args] is the source's [takes_values()] of its action *)
+Theorem C07_built_takes_value_table : forall a row,
+  a_num a = None -> a_nvalnames a <= 1 -> TablesActions.row_of (a_get_action (ab_action a)) = Some row ->
+  a_takes_value (arg_build a) = ActionTables.ga_takes_values row.
+Proof. exact TablesActions.built_takes_value_table. Qed.
+Print Assumptions C07_built_takes_value_table.
+
+(** the constants and predicates of [ValueRange] *)
+Theorem C07_range_consts_table :
+  (forall n r, In (n, r) TablesActions.model_range_names -> TablesActions.range_named n = Some r)
+  /\ TablesActions.range_named ActionTables.gen_range_default = Some r_single
+  /\ {| vmin := ActionTables.gen_takes_value_default_fixed; vmax := ActionTables.gen_takes_value_default_fixed |} = r_single
+  /\ (forall n lo hi dbg, In (n, lo, hi, dbg) ActionTables.gen_range_consts -> dbg = false ->
+        In n (map fst TablesActions.model_range_names)).
+Proof. exact TablesActions.model_range_consts. Qed.
+Print Assumptions C07_range_consts_table.
+
+Theorem C07_range_preds_table :
+  TablesActions.pred_is TablesActions.pn_takes_values (fun r _ => r_takes_values r)
+  /\ TablesActions.pred_is TablesActions.pn_is_unbounded (fun r _ => r_is_unbounded r)
+  /\ TablesActions.pred_is TablesActions.pn_is_fixed (fun r _ => r_is_fixed r)
+  /\ TablesActions.pred_is TablesActions.pn_is_multiple (fun r _ => r_is_multiple r)
+  /\ TablesActions.pred_is TablesActions.pn_accepts_more r_accepts_more
+  /\ (forall r, TablesActions.obind (TablesActions.src_range_pred (fst ActionTables.gen_range_num_values) r 0)
+                  (fun b => Some (if b then Some (TablesActions.term_val r 0 (snd ActionTables.gen_range_num_values)) else None))
+                = Some (r_num_values r))
+  /\ map fst ActionTables.gen_range_preds = TablesActions.model_range_pred_names.
+Proof. exact TablesActions.model_range_preds. Qed.
+Print Assumptions C07_range_preds_table.
+
+(** the configuration gate ([assert_arg]: max_num_args, value_type_id): equal to the source for every action except
+    SetTrue/SetFalse, where the model is STRICTER (source: num_args(0..=1) and any value parser allowed) *)
+Theorem C07_action_gate_table : forall act,
+  exists r ty, TablesActions.src_max_num_args act = Some r /\ TablesActions.src_value_type act = Some ty
+    /\ vmax (action_max_num_args act) <= vmax r
+    /\ (TablesActions.flag_action act = false -> action_max_num_args act = r /\ action_value_type act = ty)
+    /\ (TablesActions.flag_action act = true -> action_max_num_args act = r_empty /\ r = {| vmin := 0; vmax := 1 |}
+                                  /\ action_value_type act = Some (vp_type VPBool) /\ ty = None).
+Proof. exact TablesActions.model_action_gate. Qed.
+Print Assumptions C07_action_gate_table.
+
+(** "the model's max_num_args / value_type_id equal the table" is false of the model (witness SetTrue; the real crate
+    accepts `--flag=false` for SetTrue + num_args(0..=1), the model answers INVALID: docs/notes/translators.md) *)
+Theorem C07_action_gate_table_refuted :
+  exists act, TablesActions.src_max_num_args act <> Some (action_max_num_args act)
+              /\ TablesActions.src_value_type act <> Some (action_value_type act).
+Proof. exact TablesActions.model_action_gate_refuted. Qed.
+Print Assumptions C07_action_gate_table_refuted.
+
+(** whatever the model's gate accepts passes the source's two assertions about the action *)
+Theorem C07_gate_implies_source : forall a, assert_arg a = true ->
+  exists r ty, TablesActions.src_max_num_args (a_get_action a) = Some r
+    /\ TablesActions.src_value_type (a_get_action a) = Some ty
+    /\ vmax (opt_default r_single (a_num a)) <= vmax r
+    /\ (forall t, ty = Some t -> exists vp, a_vp a = Some vp /\ vp_type vp = t).
+Proof. exact TablesActions.model_gate_implies_source. Qed.
+Print Assumptions C07_gate_implies_source.
+
+(** `args_override_self` (read by the Set-like branches of [react]: [C07_set_repeat_conflict]) is a GLOBAL setting in the
+    source: set on a command it holds there and at every level below ([propagate_chain]: each level propagated from the
+    one above); and the propagation step of the model is the one the source's table defines (Gen/SettingsTables.v) *)
+Theorem C07_args_override_self_global : forall p p' scs,
+  TablesSettings.spec_apply TablesSettings.n_args_override_self p = Some p' -> scs <> [] ->
+  is_set s_args_override_self p' = true /\ is_set s_args_override_self (TablesSettings.propagate_chain p' scs) = true.
+Proof. exact TablesSettings.args_override_self_global. Qed.
+Print Assumptions C07_args_override_self_global.
+
+Theorem C07_settings_propagate_table : forall p sc,
+  TablesSettings.tbl_propagate p sc = Some (propagate_subcommand p sc).
+Proof. exact TablesSettings.propagate_table. Qed.
+Print Assumptions C07_settings_propagate_table.
+
+(** ---- round 5, continued: [Gen.BuildTables] (Command::_check_help_and_version, mkeymap.rs, the bool setters of Arg) ---- *)
+(** the generated `--help` / `--version` arguments, the `help` subcommand's name, about and argument are the source's *)
+Theorem C07_generated_args_table :
+  TablesBuild.tbl_flag_arg BuildTables.gen_help_arg = Some help_arg
+  /\ TablesBuild.tbl_flag_arg BuildTables.gen_version_arg = Some version_arg
+  /\ TablesBuild.tbl_help_sub_arg = Some help_subcommand_arg
+  /\ TablesActions.bytes_of_string BuildTables.gen_help_sub_name = s_help
+  /\ TablesActions.bytes_of_string BuildTables.gen_help_sub_about = s_help_about.
+Proof. exact TablesBuild.generated_args_table. Qed.
+Print Assumptions C07_generated_args_table.
+
+(** [_check_help_and_version] of the model (guards, order, what is appended) is the function the tables define *)
+Theorem C07_help_version_table : forall c, TablesBuild.tbl_bs_help_version c = Some (bs_help_version c).
+Proof. exact TablesBuild.bs_help_version_table. Qed.
+Print Assumptions C07_help_version_table.
+
+(** the keys an argument gets in the key map, in the source's order (`get` returns the first match) *)
+Theorem C07_arg_keys_table : forall a, TablesBuild.tbl_arg_keys a = Some (arg_keys a).
+Proof. exact TablesBuild.arg_keys_table. Qed.
+Print Assumptions C07_arg_keys_table.
+
+(** every `(flags f)` of a case: the harness calls an Arg setter of the ArgSettings variant the model field stands for,
+    and both readers know the same flag names *)
+Theorem C07_arg_flags_table :
+  forallb TablesBuild.flag_ok BuildTables.gen_spec_arg_flags = true
+  /\ map fst BuildTables.gen_spec_arg_flags = map fst BuildTables.gen_harness_arg_flags.
+Proof. exact TablesBuild.arg_flags_table. Qed.
+Print Assumptions C07_arg_flags_table.
+
+(** the copies of `ArgAction::takes_values` in the derive model (C15) and the completion tree model (C16) are the source's *)
+Theorem C07_other_models_takes_values :
+  (forall act row, TablesActions.row_of act = Some row ->
+     DeriveModel.action_takes_values act = ActionTables.ga_takes_values row)
+  /\ (forall a row, TablesActions.row_of (TablesBuild.aot_action a) = Some row ->
+     AotTree.action_takes_values a = ActionTables.ga_takes_values row
+     /\ TablesActions.range_named (ActionTables.ga_default_num_args row)
+        = Some (if AotTree.action_takes_values a then {| vmin := 1; vmax := 1 |} else {| vmin := 0; vmax := 0 |})).
+Proof. exact (conj TablesBuild.derive_takes_values_table TablesBuild.aot_takes_values_table). Qed.
+Print Assumptions C07_other_models_takes_values.
+
+(** [Command::_build_self]: the model composes its steps in the order the source runs them ([gen_build_self_steps] is the
+    order of the parts in the source text; [TablesBuild.step_named] maps a part to the model's function) *)
+Theorem C07_build_self_steps_table : forall c, TablesBuild.tbl_build_self c = Some (build_self c).
+Proof. exact TablesBuild.build_self_steps_table. Qed.
+Print Assumptions C07_build_self_steps_table.
+
+Theorem C07_args_loop_table :
+  BuildTables.gen_args_loop_steps = TablesBuild.model_args_loop_steps
+  /\ (forall c, c_args (bs_args c) = fst (build_args (c_args c) (c_groups c) BuildTables.gen_pos_counter_start)
+              /\ c_groups (bs_args c) = snd (build_args (c_args c) (c_groups c) BuildTables.gen_pos_counter_start)).
+Proof. exact TablesBuild.args_loop_table_proj. Qed.
+Print Assumptions C07_args_loop_table.
+
+(** the deprecated command-level allow_hyphen_values / allow_negative_numbers / trailing_var_arg, from the table's rules *)
+Theorem C07_deprecated_table :
+  (forall c highest a, TablesBuild.tbl_deprecated_arg c highest a = Some (bs_deprecated_arg c highest a))
+  /\ (forall c, c_args (bs_deprecated c) =
+        map (bs_deprecated_arg c (fold_left (fun m a => match a_index a with Some n => N.max m n | None => m end)
+                                            (c_args c) BuildTables.gen_highest_idx_default)) (c_args c)).
+Proof. exact (conj TablesBuild.deprecated_table TablesBuild.deprecated_highest_table_proj). Qed.
+Print Assumptions C07_deprecated_table.
+
+(** ---- the configuration gate (debug_asserts.rs): inventory of its assertions, and its two `checker!` tables ---- *)
+(** every assert!/assert_eq!/panic! of the source's gate, in source order, is classified in [TablesGate.model_gate_coverage]
+    (which conjunct of Parse/Valid.v stands for it, or why the model has none); 7 of the 63 have none (value hints, help
+    templates: data no case of this framework can express) *)
+Theorem C07_gate_sites_covered :
+  map fst TablesGate.model_gate_coverage = GateSites.gen_gate_sites
+  /\ length (filter (fun r => TablesGate.is_nodata (snd r)) TablesGate.model_gate_coverage) = 7%nat
+  /\ length TablesGate.model_gate_coverage = 63%nat.
+Proof. exact (conj TablesGate.gate_sites_covered TablesGate.gate_sites_without_counterpart). Qed.
+Print Assumptions C07_gate_sites_covered.
+
+(** [assert_arg] = its core && the interpreted `checker!(a requires b)` table of assert_arg_flags; the rows of the table
+    the model has no flag for are exactly the two help-only ones *)
+Theorem C07_assert_arg_flags_table :
+  (forall a, assert_arg a = TablesGate.assert_arg_core a && TablesGate.tbl_arg_flag_checks a)
+  /\ map fst (filter (fun row => match TablesGate.arg_getter (fst row) with None => true | Some _ => false end)
+                     GateSites.gen_arg_flag_requires)
+     = TablesGate.known_unmodelled_arg_flags.
+Proof. exact (conj TablesGate.assert_arg_flags_table TablesGate.unmodelled_arg_flags). Qed.
+Print Assumptions C07_assert_arg_flags_table.
+
+Theorem C07_app_flags_table : forall c, assert_app c = true -> TablesGate.tbl_app_flag_checks c = Some true.
+Proof. exact TablesGate.app_flags_table. Qed.
+Print Assumptions C07_app_flags_table.
+
+(** `args_override_self(true)` on the root of an unbuilt tree (class [Totality.plain]) is set at every level the parser
+    builds on its way down ([build_self], then [build_subcommand] repeatedly), to any depth *)
+Theorem C07_args_override_self_every_built_level : forall fuel x x',
+  TablesSettings.spec_apply TablesSettings.n_args_override_self x = Some x' -> Totality.plain x' = true ->
+  TablesSettingsTree.set_all s_args_override_self fuel (build_self x').
+Proof. exact TablesSettingsTree.args_override_self_every_built_level. Qed.
+Print Assumptions C07_args_override_self_every_built_level.
